@@ -58,6 +58,33 @@ LIB_EVALCTX = (
 )
 LIB = LIB + LIB_EVALCTX
 
+# TEMPLATE-LEVEL GLOBALS: names the cached library reads but never defines.  They come
+# from the globals of whatever template imports the library (Environment.get_template(
+# name, globals=...)); an importer that has such globals gets a module of its own, the
+# others share the cached one.  The values are plain alphanumeric strings and the
+# macros print nothing else, so what they render does not depend on the eval context.
+TG_NAMES = ("SITE", "TG2")
+LIB_TG = (
+    "{% set SV = 'sv-' ~ SITE|default('nosite') %}"
+    "{% macro site0() %}({{ SITE|default('nosite') }}:{{ TG2|default('no2') }}:{{ K }}){% endmacro %}"
+)
+LIB = LIB + LIB_TG
+# included WITHOUT context: sees neither the includer's variables nor its template-level
+# globals; imports the same cached library
+TGINC = "{% import 'lib.j2' as tl %}inc{{ tl.site0() }}{{ tl.SV }}{{ SITE|default('nosite') }}"
+# per main template (m0, m1): the globals it is loaded with (None: none)
+TG_VARIANTS = [
+    ({"SITE": "SA"}, None),
+    (None, {"SITE": "SB", "TG2": "TB"}),
+    ({"SITE": "SA"}, {"SITE": "SB"}),
+    ({"TG2": "TA"}, {"SITE": "SB"}),
+    ({"SITE": "SA", "TG2": "TA"}, None),
+    (None, {"TG2": "TB"}),
+]
+TG_LABELS = ("import-macro-template-globals", "from-import-template-globals",
+             "late-import-template-globals", "include-without-context-template-globals",
+             "template-globals")
+
 # type families with an awaitable and a plain member
 PAIR_FAMILIES = ["generator", "class-named-Val", "Base-hierarchy", "AwBase-hierarchy"]
 
@@ -67,7 +94,7 @@ ALL_LABELS = (
     "autoescape-dynamic", "local-macro", "local-call-block", "include", "set-block",
     "cycler-joiner", "with", "recursive-loop", "async-filters", "loop-filter", "assign",
     "import-with-context", "import-macro-autoescape", "import-macro-evalctx-probe",
-    "awaitable-kinds", "filter-forms", "base", "base2", "super")
+    "awaitable-kinds", "filter-forms", "base", "base2", "super") + TG_LABELS
 
 # labels of fragments that run code of the cached library lib.j2 (whose Context and
 # eval context are shared by every task that imports it)
@@ -385,6 +412,29 @@ class FG:
         return ("assign", "{% set " + v + " = name ~ g(" + self.t() + ") %}{{ g('p') }}{{ " + v
                 + " }}")
 
+    def tglobals(self):
+        """A fragment whose output depends on the template-level globals of the main
+        template: through macros / exported variables of the cached library (imported at
+        the head of the template, by a from-import, by an import behind an await point,
+        by a template included without context) or read directly."""
+        k = self.r.randrange(5)
+        if k == 0:
+            return (TG_LABELS[0], "{{ lib.site0() }}{{ g(" + self.t() + ") }}{{ lib.SV }}"
+                    "{{ lib.site0() }}")
+        if k == 1:
+            return (TG_LABELS[1], "{% from 'lib.j2' import site0 as s0, SV as sv0 %}{{ s0() }}"
+                    "{{ g(" + self.t() + ") }}{{ sv0 }}{{ s0() }}")
+        if k == 2:
+            return (TG_LABELS[2], "{{ g(" + self.t() + ") }}{% import 'lib.j2' as latelib %}"
+                    "{{ latelib.site0() }}{{ latelib.SV }}{{ g(" + self.t() + ") }}"
+                    "{{ latelib.site0() }}")
+        if k == 3:
+            return (TG_LABELS[3], "{{ g(" + self.t() + ") }}{% include 'tginc.j2' without context %}"
+                    "{{ g(" + self.t() + ") }}{{ lib.site0() }}")
+        return (TG_LABELS[4], "{{ SITE|default('nosite') }}{{ g(" + self.t() + ") }}"
+                "{{ TG2|default('no2') }}{% set q = SITE|default('n') ~ lib.SV %}"
+                "{{ g(" + self.t() + ") }}{{ q }}")
+
     def ctx_import(self):
         return ("import-with-context",
                 "{% from 'libctx.j2' import who, cname with context %}{{ who(" + self.t()
@@ -395,8 +445,13 @@ def render_frags(frags):
     return SEP.join(lab + LAB + src for lab, src in frags)
 
 
-def gen_case(rng, force_evalctx=False, force_kinds=False, all_families=False, rng2=None):
+def gen_case(rng, force_evalctx=False, force_kinds=False, all_families=False, rng2=None,
+             rng_tg=None):
     """rng2: stream for the environment policy values of the case (None: defaults).
+    rng_tg: stream of its own for TEMPLATE-LEVEL GLOBALS (None: none): main 0 / main 1 are
+    loaded with different template-level globals (one of TG_VARIANTS), each gets 1-2
+    fragments whose output depends on them, tasks 0 / 1 render main 0 / 1; tasks that
+    share a main template share its globals.
     force_kinds: both main templates get a fragment with values of several kinds,
     one starting with a plain / engine-made lazy value, the other with an awaitable
     one behind its first await point; tasks 0 / 1 render main 0 / 1.
@@ -404,9 +459,13 @@ def gen_case(rng, force_evalctx=False, force_kinds=False, all_families=False, rn
     autoescape block, main 1 an eval-context probe inside the same cached library, and
     tasks 0 / 1 render main 0 / 1."""
     fg = FG(rng)
-    tpls = {"lib.j2": LIB, "libctx.j2": LIBCTX}
+    tpls = {"lib.j2": LIB, "libctx.j2": LIBCTX, "tginc.j2": TGINC}
     for i, s in enumerate(INC):
         tpls["inc%d.j2" % i] = s
+    fg_tg = None
+    if rng_tg is not None:
+        fg_tg = FG(rng_tg)
+        fg_tg.n = 500
     # parent with blocks
     tpls["base.j2"] = ("{% import 'lib.j2' as lib %}"
                        + "base" + LAB + "{{ name }}{% block b1 %}{{ g('b1') }}{{ name }}{% endblock %}"
@@ -429,6 +488,9 @@ def gen_case(rng, force_evalctx=False, force_kinds=False, all_families=False, rn
             if rng.random() < 0.5:
                 frags.insert(rng.randint(0, len(frags)),
                              fg.imp_evalctx_probe() if mi == 0 else fg.imp_autoescape())
+        if fg_tg is not None:
+            for _ in range(rng_tg.randint(1, 2)):
+                frags.insert(rng_tg.randint(0, len(frags)), fg_tg.tglobals())
         body = render_frags(frags)
         head = "{% import 'lib.j2' as lib %}"
         name = "m%d.j2" % mi
@@ -448,7 +510,8 @@ def gen_case(rng, force_evalctx=False, force_kinds=False, all_families=False, rn
         n = rng.randint(2, 3)
         xs = [rng.randint(1, 9) for _ in range(n)]
         tasks.append({
-            "main": mains[t] if (force_evalctx or force_kinds) and t < 2 else rng.choice(mains),
+            "main": mains[t] if (force_evalctx or force_kinds or fg_tg is not None) and t < 2
+            else rng.choice(mains),
             "name": names[t],
             "xs": xs,
             "ys": [t + 1, t + 4],
@@ -460,8 +523,22 @@ def gen_case(rng, force_evalctx=False, force_kinds=False, all_families=False, rn
     # make sure there is contrast where it matters
     if ntasks >= 2 and tasks[0]["ae"] == tasks[1]["ae"]:
         tasks[1]["ae"] = not tasks[0]["ae"]
-    return {"tpls": tpls, "tasks": tasks, "autoescape": rng.random() < 0.3,
+    case = {"tpls": tpls, "tasks": tasks, "autoescape": rng.random() < 0.3,
             "policies": gen_policies(rng2) if rng2 is not None else None}
+    if fg_tg is not None:
+        assign_tglobals(rng_tg, tasks, mains)
+    return case
+
+
+def assign_tglobals(rng, tasks, mains):
+    """Template-level globals are a property of the (cached) main template: tasks that
+    render the same main template get the same ones."""
+    variant = rng.choice(TG_VARIANTS)
+    if rng.random() < 0.5:
+        variant = variant[::-1]
+    per_main = {m: variant[i % 2] for i, m in enumerate(mains)}
+    for t in tasks:
+        t["tglobals"] = dict(per_main[t["main"]]) if per_main[t["main"]] else None
 
 
 def gen_policies(rng):
@@ -641,7 +718,44 @@ def gen_modmain(rng, tpls, idx):
     return label, body
 
 
-def gen_modcase(rng):
+# template-level globals in the module-body races: the library reads SITE / TG2 in a
+# macro and in an exported variable; the uses are printed as [TG=...] (alphanumeric
+# values only, independent of the eval context)
+MLIB_TG = ("{% macro mt() %}{{ SITE|default('nosite') }}/{{ TG2|default('no2') }}{% endmacro %}"
+           "{% set v3 = 'S' ~ SITE|default('nosite') %}")
+MOD_TG_USES = {
+    "{% import 'mlib.j2' as L %}":
+        "{% import 'mlib.j2' as L %}[TG={{ L.mt() }}{{ L.v3 }}]",
+    "{% from 'mlib.j2' import m1, m2 as mm, v1, v2, ma, ms %}":
+        "{% from 'mlib.j2' import m1, m2 as mm, v1, v2, ma, ms, mt, v3 %}[TG={{ mt() }}{{ v3 }}]",
+}
+
+
+def gen_modcase(rng, rng_tg=None):
+    """rng_tg: stream of its own for template-level globals (None: none): the library
+    additionally reads names it never defines, every import of it in the case is
+    followed by a use of them, and the main templates are loaded with different
+    template-level globals (tasks sharing a main template share them)."""
+    case = _gen_modcase(rng)
+    if rng_tg is not None:
+        tpls = case["tpls"]
+        tpls["mlib.j2"] += MLIB_TG
+        for name in sorted(tpls):
+            if name != "mlib.j2":
+                for old, new in MOD_TG_USES.items():
+                    tpls[name] = tpls[name].replace(old, new)
+        mains = sorted({t["main"] for t in case["tasks"]})
+        if len(mains) == 1:
+            # all tasks share one main template: the last task gets a copy of it under
+            # another name, which can be loaded with globals of its own
+            tpls["mmcopy.j2"] = tpls[mains[0]]
+            case["tasks"][-1]["main"] = "mmcopy.j2"
+            mains.append("mmcopy.j2")
+        assign_tglobals(rng_tg, case["tasks"], mains)
+    return case
+
+
+def _gen_modcase(rng):
     ntasks = rng.choice([2, 2, 2, 3])
     nested = ntasks == 2 and rng.random() < 0.3
     lib, ngates = gen_modlib(rng, 3 if ntasks == 2 else 2, nested)
